@@ -38,17 +38,19 @@ def PcOk (sh : Shared) (id : Nat) : Pc → Prop
   | .uNext m =>
     sh.st = sh.base ∧ sh.cp = .idle ∧ m = mark sh.base ∧ ∃ o, sh.base.obj = some o ∧ hasLease o = false
   | .uSet =>
-    sh.cp = .idle ∧ ∃ o, sh.base.obj = some o ∧ hasLease o = false ∧
+    sh.cp = .idle ∧ ∃ o, sh.base.obj = some o ∧ hasLease o = false ∧ lease (mark sh.base) o.interval ≠ 0 ∧
       sh.st = { sh.base with obj := some { o with next := mark sh.base } }
   | .uRes r =>
-    sh.cp = .nextWrite ∧ ∃ o, sh.base.obj = some o ∧ hasLease o = false ∧ r = mark sh.base + o.interval ∧
-      sh.st = { sh.base with store := some (mark sh.base + o.interval),
+    sh.cp = .nextWrite ∧ ∃ o, sh.base.obj = some o ∧ hasLease o = false ∧ lease (mark sh.base) o.interval ≠ 0 ∧
+      r = mark sh.base + lease (mark sh.base) o.interval ∧
+      sh.st = { sh.base with store := some (mark sh.base + lease (mark sh.base) o.interval),
                              obj := some { o with next := mark sh.base } }
   | .nHand =>
     (sh.st = sh.base ∧ sh.cp = .idle ∧ ∃ o, sh.base.obj = some o ∧ hasLease o = true) ∨
-    (sh.cp = .nextWrite ∧ ∃ o, sh.base.obj = some o ∧ hasLease o = false ∧
-      sh.st = { sh.base with store := some (mark sh.base + o.interval),
-                             obj := some { o with next := mark sh.base, reserved := mark sh.base + o.interval } })
+    (sh.cp = .nextWrite ∧ ∃ o, sh.base.obj = some o ∧ hasLease o = false ∧ lease (mark sh.base) o.interval ≠ 0 ∧
+      sh.st = { sh.base with store := some (mark sh.base + lease (mark sh.base) o.interval),
+                             obj := some { o with next := mark sh.base,
+                                                  reserved := mark sh.base + lease (mark sh.base) o.interval } })
   | .rTest => sh.st = sh.base ∧ sh.cp = .idle
   | .rSet => sh.st = sh.base ∧ sh.cp = .idle ∧ ∃ o, sh.base.obj = some o ∧ hasLease o = true
   | .rRes =>
